@@ -456,6 +456,9 @@ def handle (line : String) : String :=
     if goRes == "PANIC" && f.head? != some "det" then "SPEC C01:operation-panicked" else
     match f with
     | ["det", name, hx, lim] =>
+      -- a panic, a hang or a write into the input is a violation whether or not the check has a model
+      if goRes == "PANIC" || goRes == "TIMEOUT" then s!"SPEC C01:detector-{goRes}({name})" else
+      if goRes == "W" then "SPEC C17:detector-writes-into-its-input ; SPEC C04:input-buffer-modified ; SPEC C01:detector-writes-into-its-input" else
       match unhex hx, parseNat lim with
       | some raw, some l =>
         match Gen.dets.find? (fun p => p.1 == name) with
@@ -821,6 +824,12 @@ def handle (line : String) : String :=
           if all.isEmpty then "OK" else String.intercalate " ; " all
         | _ => "SPEC C01:no-result(" ++ goRes ++ ")"
       | _, _ => "BAD args"
+    | ["procfile", _lim, _ph] =>
+      match goRes.splitOn " " with
+      | [ecls, _, rres, dres] =>
+        if ecls != "nil" then "SPEC C05:file-error-on-regular-file"
+        else if rres != dres then "SPEC C05:file-disagrees-with-detect" else "OK"
+      | _ => if goRes == "UNREADABLE" || goRes == "UNSTABLE" then "SKIP " ++ goRes else "SPEC C01:no-result(" ++ goRes ++ ")"
     | ["file", _lim, _hx] =>
       match goRes.splitOn " " with
       | [ecls, _, rres, dres] =>
